@@ -123,8 +123,25 @@ def check(ctx, rep: Report):
                         t = ast.unparse(n.func)
                     if t and c.name in ("KeyedList", "KeyedBase"):
                         writers.setdefault(name, []).append((t, n.lineno))
+    # private helpers called from an allowed primitive are part of that primitive (their writes are
+    # judged through the caller's paired-update / atomicity obligations below)
+    allowed = set(WRITERS_ALLOWED)
+    changed = True
+    while changed:
+        changed = False
+        for c_ in ctx.p.mro(ci):
+            if c_.name not in ("KeyedList", "KeyedBase"):
+                continue
+            for name, defs in c_.methods.items():
+                if name not in allowed:
+                    continue
+                for n in ast.walk(defs[0].node):
+                    if isinstance(n, ast.Call) and isinstance(n.func, ast.Attribute) and ast.unparse(n.func.value) == "self" \
+                            and n.func.attr.startswith("_") and not n.func.attr.startswith("__") and n.func.attr not in allowed:
+                        allowed.add(n.func.attr)
+                        changed = True
     for name, sites in writers.items():
-        ok = name in WRITERS_ALLOWED
+        ok = name in allowed
         rep.oblige("C13.COH", f"writer:{name}", ok)
         if not ok:
             rep.violate(Violation("C13.COH", f"C13.COH|writer|{name}", f"KeyedList.{name} writes the stores directly (`{sites[0][0]}`) outside the paired primitives", f"{mrel}:{sites[0][1]}", f"KeyedList.{name}"))
